@@ -44,6 +44,13 @@ type HPACK struct {
 	// COMPRESSION_ERROR on a header that indexed one of them.
 	// https://tools.ietf.org/html/rfc7541#section-6.3
 	pendingSizeUpdate bool
+
+	// pendingLowSize is the smallest table size set since the peer was last
+	// told. When the size went down and up again before the next header block,
+	// the peer has to hear about the low point first: it is what tells it which
+	// entries were dropped on the way.
+	// https://tools.ietf.org/html/rfc7541#section-4.2
+	pendingLowSize uint32
 }
 
 func headerFieldsToString(hfs []*HeaderField, indexOffset int) string {
@@ -104,6 +111,10 @@ func (hp *HPACK) Reset() {
 func (hp *HPACK) SetMaxTableSize(size uint32) {
 	if hp.maxTableSize == size && hp.maxTableSizeSettings == size {
 		return
+	}
+
+	if !hp.pendingSizeUpdate || size < hp.pendingLowSize {
+		hp.pendingLowSize = size
 	}
 
 	hp.maxTableSizeSettings = size
@@ -589,6 +600,10 @@ func (hp *HPACK) AppendHeader(dst []byte, hf *HeaderField, store bool) []byte {
 	// follows the change.
 	if hp.pendingSizeUpdate {
 		hp.pendingSizeUpdate = false
+
+		if hp.pendingLowSize < hp.maxTableSize {
+			dst = appendInt(append(dst, 0x20), 5, uint64(hp.pendingLowSize))
+		}
 
 		dst = appendInt(append(dst, 0x20), 5, uint64(hp.maxTableSize))
 	}
